@@ -300,6 +300,16 @@ class ClassVal:
 
 
 @dataclass(eq=False)
+class DispatchVal:
+    """A functools.singledispatchmethod of a class: fallback implementation plus (type name, implementation) registrations."""
+    mod: object
+    cls: object
+    default: object
+    regs: list
+    inst: object
+
+
+@dataclass(eq=False)
 class CachedVal:
     """functools.lru_cache / cache applied to a function: one result per distinct key for the whole run."""
     func: object
@@ -1253,6 +1263,24 @@ class Interp:
                         return FuncVal(c.mod, st, None, c)
                     if "classmethod" in decos:
                         return FuncVal(c.mod, st, cv, c)
+                    if any(d in ("singledispatchmethod", "functools.singledispatchmethod") for d in decos):
+                        # functools.singledispatchmethod: the implementations registered in the class body, chosen by the type of
+                        # the first argument after self (the most specific registered class; this one is the fallback)
+                        regs = []
+                        for st2 in c.node.body:
+                            if not isinstance(st2, ast.FunctionDef) or st2 is st:
+                                continue
+                            for d2 in st2.decorator_list:
+                                tgt = d2.func if isinstance(d2, ast.Call) else d2
+                                if dotted(tgt) == f"{attr}.register":
+                                    if isinstance(d2, ast.Call) and d2.args:
+                                        tnames = [(dotted(d2.args[0]) or "").split(".")[-1]]
+                                    else:
+                                        ann = st2.args.args[1].annotation if len(st2.args.args) > 1 else None
+                                        tnames = [x.strip().split(".")[-1] for x in norm(ann).split("|")] if ann is not None else []
+                                    for tn in tnames:
+                                        regs.append((tn, st2))
+                        return DispatchVal(c.mod, c, st, regs, inst)
                     if decos and any(d for d in decos) and not all(d in ("contextmanager", "contextlib.contextmanager") for d in decos):
                         # a decorator of the package: apply it to the plain function; the result is what the class holds
                         f_ = FuncVal(c.mod, st, None, c)
@@ -1342,6 +1370,8 @@ class Interp:
                 return ADigest(o.algo, o.data, o.kind, 0 if lo is None else lo, hi, st)
             raise Unsupported(f"slice of {type(o).__name__} ({site})")
         k = self.eval(n.slice, env)
+        if isinstance(o, Sym) and o.kind == "rawtoken" and k in (0, -1) and not isinstance(k, bool):
+            return Sym("str", f"{o.src}[{k}]")          # the token's first / last character
         if isinstance(o, ClassVal) and o.kind == "enum":
             if isinstance(k, Tmpl) and k.is_literal():
                 if any(n_ == k.text() for n_, _v, _m in self.enum_members(o.name, site)):
@@ -2077,6 +2107,16 @@ class Interp:
         raise Unsupported(f"super().{attr} at {site}")
 
     def apply(self, f, args, kwargs, site, node=None):
+        if isinstance(f, DispatchVal):
+            if not args:
+                raise RaiseSig("TypeError", site, "singledispatchmethod requires at least 1 positional argument")
+            chosen = None
+            for tn, fn_ in f.regs:
+                if tn != "object" and self.isinstance_name(args[0], tn, None):
+                    chosen = fn_          # registered classes of this code base are unrelated to one another: at most one matches
+                    break
+            target = chosen if chosen is not None else f.default
+            return self.call(FuncVal(f.mod, target, f.inst, f.cls), args, kwargs, site)
         if isinstance(f, CachedVal):
             # functools caches: the arguments are the key (compared with == and hash); a result that was computed is handed out
             # again, an exception is not remembered
@@ -2303,8 +2343,28 @@ class Interp:
                     kwargs = dict(res.items)
         attrs = {}
         for name, ann, default, st in fields:
-            if name in kwargs:
-                v = kwargs[name]
+            # Field(default, alias="x", ...): the constructor takes the value under the alias; under the field's own name it is an
+            # unknown keyword, which pydantic ignores unless Config.allow_population_by_field_name
+            key = name
+            if isinstance(default, ast.Call) and (dotted(default.func) or "").split(".")[-1] == "Field":
+                fkw = {k_.arg: k_.value for k_ in default.keywords}
+                al = fkw.get("alias")
+                if isinstance(al, ast.Constant) and isinstance(al.value, str):
+                    key = al.value if (al.value in kwargs or not cfg.get("allow_population_by_field_name") or name not in kwargs) else name
+                dexpr = default.args[0] if default.args else fkw.get("default")
+                factory = fkw.get("default_factory")
+                if key in kwargs:
+                    default = None
+                elif factory is not None:
+                    default = ast.Call(func=factory, args=[], keywords=[])
+                elif dexpr is not None and not (isinstance(dexpr, ast.Constant) and dexpr.value is Ellipsis):
+                    default = dexpr
+                else:
+                    default = None
+            if key in kwargs:
+                v = kwargs[key]
+            elif isinstance(default, ast.Constant) and default.value is None:
+                v = None
             elif default is not None:
                 v = self.eval(default, Env(cv.mod, {}))
             else:
@@ -3139,6 +3199,18 @@ class Interp:
         if isinstance(recv, Sym):
             if recv.kind == "ident" and name in ("lower", "upper", "casefold") and not args:
                 return Tmpl.lit(getattr(recv.name, name)())
+            if name in ("removeprefix", "removesuffix") and len(args) == 1 and isinstance(args[0], Sym):
+                # stripping the token's own first / last character: the same as slicing it off
+                base = recv.src.split("[")[0]
+                edge = args[0].src
+                same_ends = TOKEN_ENDS_EQUAL["fn"](base) if TOKEN_ENDS_EQUAL["fn"] is not None else False
+                if name == "removeprefix" and recv.kind == "rawtoken" and edge == base + "[0]":
+                    return Sym("str", base + "[1:None]")
+                if name == "removesuffix" and edge in (base + "[-1]",) + ((base + "[0]",) if same_ends else ()):
+                    if recv.kind == "rawtoken":
+                        return Sym("str", base + "[None:-1]")
+                    if recv.src == base + "[1:None]":
+                        return Sym("str", base + "[1:-1]")
             if recv.kind == "rawtoken" and name == "count":
                 return Sym("int", recv.src + ".count")
             if recv.kind == "rawtoken" and name in ("partition", "rpartition"):
@@ -3328,6 +3400,8 @@ class Interp:
         if q in ("math.isinf", "math.isfinite", "math.isnan") and len(args) == 1:
             import math as _math
             v = args[0]
+            if isinstance(v, Sym) and v.kind == "int" and v.huge:
+                raise RaiseSig("OverflowError", site, "int too large to convert to float")       # math.is*() converts its argument
             if isinstance(v, Sym) and v.kind in ("int", "float"):
                 v = v.as_inf() if v.overflow else 0.0
             if _isnum(v):
@@ -3602,6 +3676,7 @@ def _isnum(v):
 
 
 _SYMS: dict = {}
+TOKEN_ENDS_EQUAL = {"fn": None}   # installed by the pipeline: token type -> do all its texts begin and end with the same character?
 TOKEN_LANGUAGE = {"fn": None}     # installed by the pipeline: (token type, text) -> may the token's text be `text`?
 _TMPLS: dict = {}
 
